@@ -2847,6 +2847,7 @@ var (
 	vImplGrowAll bool // ghost: every Grow of the implementation so far happened before the registration
 	vImplGrowMu  uint32 // ghost: the largest offset a Grow made under the collection mutex covers
 	vImplGrowsMu int
+	vImplGrowX   bool // ghost: every Grow of the implementation so far ran under an exclusive hold of a column lock
 )
 
 //@ model column.Column.Grow
@@ -2856,12 +2857,28 @@ func vModelColumnImplGrow(c Column, idx uint32) {
 		vImplGrowMax = idx
 	}
 	vImplGrowAll = vImplGrowAll && vStoreCalls == 0
+	vImplGrowX = vImplGrowX && vOtherX > 0
 	if vColW {
 		vImplGrowsMu++
 		if idx > vImplGrowMu {
 			vImplGrowMu = idx
 		}
 	}
+}
+
+// The column wrapper's Grow (C10, C18): the implementation reallocates its block list (and, for bit-per-row columns,
+// the bit array) - it runs with the wrapper's lock held EXCLUSIVELY, because Apply, Value, Index and Snapshot read
+// those under the shared hold; a shared hold here lets a commit to another block write into storage being copied.
+//
+//@ lemma props=C10,C18,C01 real=column.(*column).Grow
+func vLemmaColumnGrowExclusive(c *column, idx uint32) {
+	vAssume(c != nil && vNothingHeld() && vOtherX == 0)
+	vCol = nil // (the wrapper's lock is not a collection's mutex)
+	vImplGrows, vImplGrowMax, vImplGrowX = 0, 0, true
+	c.Grow(idx)
+	vAssert("implementation-grown-once-to-that-offset", vImplGrows == 1 && vImplGrowMax == idx)
+	vAssert("under-the-exclusive-hold-of-the-column-lock", vImplGrowX)
+	vAssert("released", vNothingHeld() && vOtherX == 0)
 }
 
 //@ lemma props=C01,C18
